@@ -261,25 +261,33 @@ pub fn all_cases() -> Vec<Case> {
             }
         }
     }
-    // datagrams over the QUIC transport (VMess, Trojan)
-    for (proto, cipher) in [("vmess", "aes-128-gcm"), ("trojan", "aes-128-gcm")] {
-        let (pw_s, pw_c, users) = if proto == "vmess" {
-            let id = gen_uuid(&mut g);
-            ("unused".to_owned(), id.clone(), vec![("u".to_owned(), id)])
-        } else {
-            let k = key_for(&mut g, cipher);
-            (k.clone(), k, vec![])
-        };
-        v.push(Case {
-            class: "transport-section".into(),
-            label: format!("{proto}/{cipher}/quic/datagrams"),
-            server_json: section(&server_json(proto, cipher, None, &pw_s, &users, false), true, "quic"),
-            client_json: section(&client_json(proto, cipher, Some("tcp_and_udp"), &pw_c, false), false, "quic"),
-            expect: Some((true, true, true, true)),
-            failing_side: String::new(),
-            canary_tcp: true,
-            canary_udp: true,
-        });
+    // datagrams of the stream-carried protocols (VMess, Trojan) over every transport section: the datagram relay of a client
+    // in mode tcp_and_udp has to take the same carrier as its stream relay (tls where `ssl` is set, ...) - the server, which
+    // has the same sections, serves nothing else
+    for (proto, cipher) in [("vmess", "aes-128-gcm"), ("vmess", "chacha20-poly1305"), ("trojan", "aes-128-gcm")] {
+        for which in ["quic", "none", "ssl", "ws", "ssl+ws"] {
+            if proto == "trojan" && !which.contains("ssl") && which != "quic" {
+                // (the README lists Trojan datagrams over tls / wss / quic only)
+                continue;
+            }
+            let (pw_s, pw_c, users) = if proto == "vmess" {
+                let id = gen_uuid(&mut g);
+                ("unused".to_owned(), id.clone(), vec![("u".to_owned(), id)])
+            } else {
+                let k = key_for(&mut g, cipher);
+                (k.clone(), k, vec![])
+            };
+            v.push(Case {
+                class: "transport-section".into(),
+                label: format!("{proto}/{cipher}/{which}/datagrams"),
+                server_json: section(&server_json(proto, cipher, None, &pw_s, &users, false), true, which),
+                client_json: section(&client_json(proto, cipher, Some("tcp_and_udp"), &pw_c, false), false, which),
+                expect: Some((true, which == "quic", true, true)),
+                failing_side: String::new(),
+                canary_tcp: true,
+                canary_udp: true,
+            });
+        }
     }
     // F. key lists "iPSK1:...:iPSKn:uPSK" of the Shadowsocks 2022 AES ciphers: the identity headers the client puts on the
     //    wire (stream and datagram) must be the chain the list spells, in that order
